@@ -83,5 +83,24 @@ def run(ctx):
     if ctx.anchor(n):
         b = ctx.body(n)
         ctx.ob("entity-tier|next-version", bool(b.calls(re.escape(ENT) + r"::put_entity_updates$")), "put_next_version_entity_updates delegates to put_entity_updates", b.loc())
+    ctx.rule("one-sided comparison (Engler) in JellyfishMerkleTree::batch_insert_at: the collapse condition `a node left with at most one child` "
+             "tests the surviving old children and the newly created children symmetrically — both `len() <= 1`; an `== 1` on one side drops the "
+             "case `no old child, one new leaf`, which is then stored as an internal node with a single leaf and hashed with placeholder siblings "
+             "(the root stops matching the from-scratch commitment)")
+    bi = [x for x in F.fns if x.endswith("JellyfishMerkleTree::batch_insert_at")]
+    ctx.ob("jmt-collapse|anchor", len(bi) == 1, f"batch_insert_at: {len(bi)}")
+    for x in bi[:1]:
+        b = ctx.body(x)
+        ops = []
+        for sb in b.switches():
+            si = b.switch_info(sb)
+            if si and si["kind"] == "bool":
+                for a in si["atoms"]:
+                    if a.kind == "bin" and a.what in ("Le", "Lt", "Eq", "Ne", "Gt", "Ge") and b.const_value(a.extra["b"]) in (1, 2) and \
+                            any(y.endswith("::len") for y in origin_names(b, a.extra["a"])):
+                        ops.append((a.what, b.const_value(a.extra["b"])))
+        at_most_one = [o for o in ops if o in (("Le", 1), ("Lt", 2), ("Gt", 1), ("Ge", 2))]
+        ctx.ob("jmt-collapse|both-child-counts-tested-at-most-one", len(ops) >= 2 and len(at_most_one) == len(ops),
+               f"child-count tests against 1: {ops}" + ("" if len(at_most_one) == len(ops) else " — an equality test on one side makes the collapse one-sided"), b.loc())
     ctx.assume("equality of the computed root with an independent sparse-Merkle commitment, batching independence and the jellyfish tree algorithm "
                "itself are value-level and NOT decided; only what is hashed into which leaf, and that a Reset empties the tier first, are")
